@@ -134,10 +134,10 @@ func runC20(c *core.Ctx) {
 
 	c.Rule("C20.globals", "every write to a package-level variable of a library package (direct store, map update/delete, or passing it by reference to a function whose summary writes through that parameter) happens in an init function / variable initialiser or in the frozen registration API", 20)
 	type gw struct {
-		fn   *ssa.Function
-		pos  string
-		g    *ssa.Global
-		how  string
+		fn  *ssa.Function
+		pos string
+		g   *ssa.Global
+		how string
 	}
 	var gws []gw
 	for _, fn := range p.ModFns {
@@ -267,7 +267,7 @@ func runC20(c *core.Ctx) {
 	}
 
 	// ---------- hasher ----------
-	c.Rule("C20.hasher", "hashers are obtained per call in every LinkSystem operation and never stored in a field or global (see C05.samederivation)", 4)
+	c.Rule("C20.hasher", "hashers are obtained per call in every LinkSystem operation and never stored in a field or global; the registry HasherChooser hands out a hasher created by GetHasher in that activation, never a cached instance", 5)
 	if lsT := p.NamedType("linking", "LinkSystem"); lsT != nil {
 		ms := p.SSA.MethodSets.MethodSet(types.NewPointer(lsT))
 		for i := 0; i < ms.Len(); i++ {
@@ -292,6 +292,7 @@ func runC20(c *core.Ctx) {
 			}
 		}
 	}
+	checkFreshHasher(c)
 }
 
 // freshParams decides whether parameter i of fn always denotes an object that
@@ -518,11 +519,11 @@ func readonlyEntries(p *core.Program) map[string][]*ssa.Function {
 }
 
 var storeWriteMethods = map[string]bool{
-	"(*storage/memstore.Store).Put":       true,
-	"(*linking/cid.Memory).OpenWrite":     true,
-	"(*linking/cid.Memory).OpenWrite$1":   true,
-	"(*storage/fsstore.Store).Put":        true,
-	"(*storage/fsstore.Store).PutStream":  true,
+	"(*storage/memstore.Store).Put":        true,
+	"(*linking/cid.Memory).OpenWrite":      true,
+	"(*linking/cid.Memory).OpenWrite$1":    true,
+	"(*storage/fsstore.Store).Put":         true,
+	"(*storage/fsstore.Store).PutStream":   true,
 	"(*storage/fsstore.Store).PutStream$1": true,
 }
 
